@@ -137,6 +137,14 @@ class SessionRules(Rule):
                         order.append((now_pub[0].n, (had_tx[0].seq, had_tx[0].ci, had_tx[0].n), rq))
                     if now_rel:
                         L.violate("C12", "M2", "PUBREL-without-PUBREC", "PUBREL id %r written at resume without PUBREC" % rq.msgId)
+            # a message the earlier connection only held back is released once
+            for rq in carried:
+                if not [x for x in rq.tx if x.seq < d.seq]:
+                    now_pub = [op for op in mine if op.req is rq and op.type == "PUBLISH"]
+                    if len(now_pub) > 1:
+                        L.violate("C12", "M3", "held-back-released-twice",
+                                  "publish rid=%d, held back by the earlier connection, written %d times at the resuming CONNACK"
+                                  % (rq.rid, len(now_pub)))
             # held-back messages are released as the window allows
             if s.fifo and (c.profile & PUBB) and c.closing is None and not d.aborted:
                 head = [r for r in s.fifo if not (r.fires and r.fires[0][0] == d.seq and not r.fires[0][1])]
